@@ -111,8 +111,9 @@ def e1_oracle(rec, table=None):
             kmax, nops, smax = 1.0, 0, 1.0
         kmax = max(kmax, m["cond"])
         # the magnitude of the data the current models were built from: a barrier value (2^100) that has left
-        # the interpolation set since the last rebuild still determines the size of the rounding errors
-        smax = max(smax, m["scale"])
+        # the interpolation set since the last rebuild still determines the size of the rounding errors, and so
+        # does the magnitude of the (possibly cancelling) terms of the stored representation
+        smax = max(smax, m["scale"], m.get("repr", 0.0))
         nops += 1
         # rounding errors accumulate over the operations since the last (re)build of the models
         tol = 1e3 * EPS * kmax * nops * smax
